@@ -10,7 +10,7 @@ SUBCHECKS = []
 RULE = (
     'Pairs (init, init[..., perm, :]) (source_activity_mask permuted '
     'together): all seven trainers, every weight-tying option and option '
-    'set, general-position data, iterations 1..8; permutations: every one of '
+    'set, general-position data, iterations 1..8 (12 or 20 in one case of eight); permutations: every one of '
     'the K! for K <= 4 is enumerated per case in the thorough tier (3 drawn '
     'in the quick tier), drawn for K = 5, 6. Non-trivial: a non-identity '
     'permutation under which the start is not invariant. Distinct = distinct '
@@ -41,6 +41,8 @@ def _one(d, ctx, kind, tier_all, **kw):
         stable_only=True, min_K=2, **kw)
     if case.init.shape != case.aff_shape:
         case.init = np.broadcast_to(case.init, case.aff_shape).copy()
+    if kind != 'cbmm' and d.int(0, 7) == 0:
+        case.iterations = d.choice([12, 20])     # the property: iterations 1..20
     ctx.describe(**case.describe())
     K = case.K
     ctx.label(kind, f'K={K}', f'wca={case.opts.get("weight_constant_axis")}')
